@@ -59,6 +59,8 @@ type stFake struct {
 	sends                   []int
 	recv, header, closesend int
 	ctx                     context.Context
+	waitFor                 int        // the first send returns only after that many receivers have reached the stream
+	h                       *stHarness // (an echo-style peer: the send completes once the client reads)
 }
 
 func (f *stFake) Header() (metadata.MD, error) {
@@ -78,7 +80,25 @@ func (f *stFake) Context() context.Context { return f.ctx }
 func (f *stFake) SendMsg(m interface{}) error {
 	f.mu.Lock()
 	f.sends = append(f.sends, *(m.(*int)))
+	n := f.waitFor
+	f.waitFor = 0
 	f.mu.Unlock()
+	if n > 0 {
+		ok := false
+		for i := 0; i < 200 && !ok; i++ {
+			f.mu.Lock()
+			ok = f.recv+f.header >= n
+			f.mu.Unlock()
+			if !ok {
+				time.Sleep(2 * time.Millisecond)
+			}
+		}
+		if !ok {
+			f.h.mu.Lock()
+			f.h.lateWake = true
+			f.h.mu.Unlock()
+		}
+	}
 	return nil
 }
 func (f *stFake) RecvMsg(m interface{}) error {
@@ -106,6 +126,8 @@ type stHarness struct {
 	pending  []*stPending
 	mu       sync.Mutex
 	race     *stRaceCtx
+	slowSend int           // receivers that must reach the stream before its first send returns
+	lateWake bool          // ... and they did not
 	gate     chan struct{} // call2: the streamer waits here
 	entered  chan struct{}
 	sortSend bool
@@ -141,7 +163,8 @@ func (h *stHarness) streamer(ctx context.Context, desc *grpc.StreamDesc, cc *grp
 		return nil, errStCreate
 	}
 	h.created++
-	h.fake = &stFake{ctx: ctx}
+	h.fake = &stFake{ctx: ctx, waitFor: h.slowSend, h: h}
+	h.slowSend = 0
 	return h.fake, nil
 }
 
@@ -201,8 +224,12 @@ func (h *stHarness) summary(rets []string) string {
 		recv, header, cs = h.fake.recv, h.fake.header, h.fake.closesend
 		h.fake.mu.Unlock()
 	}
-	return fmt.Sprintf("rets=%s blocked=%s created=%d attempts=%s sends=%s recv=%d header=%d closesend=%d",
-		strings.Join(rets, ","), strings.Join(bl, ","), h.created, strings.Join(h.attempts, ","), strings.Join(sends, ","), recv, header, cs)
+	late := ""
+	if h.lateWake {
+		late = " latewake=1" // the waiting receivers were not woken while the underlying send was in progress
+	}
+	return fmt.Sprintf("rets=%s blocked=%s created=%d attempts=%s sends=%s recv=%d header=%d closesend=%d%s",
+		strings.Join(rets, ","), strings.Join(bl, ","), h.created, strings.Join(h.attempts, ","), strings.Join(sends, ","), recv, header, cs, late)
 }
 
 func (h *stHarness) exec(line string) string {
@@ -250,6 +277,14 @@ func (h *stHarness) exec(line string) string {
 		h.mu.Unlock()
 		p := &stPending{tid: tid, ch: make(chan string, 1)}
 		c := a["c"]
+		if strings.HasPrefix(c, "send:") && a["ok"] == "1" {
+			// if this send creates the stream, its underlying send completes only once the waiting receivers read
+			h.mu.Lock()
+			if h.created == 0 && !h.canceled {
+				h.slowSend = len(h.pending)
+			}
+			h.mu.Unlock()
+		}
 		h.mu.Lock()
 		if h.race != nil && atomic.LoadInt32(&h.race.armed) == 1 && h.race.Context.Err() == nil &&
 			(c == "recv" || c == "header") && h.created == 0 && !h.failed {
@@ -368,6 +403,19 @@ func (h *stHarness) exec(line string) string {
 			g, has := c.Value(gcpKey).(*gcpContext)
 			if !has || g.reqMsg != interface{}(req) || g.replyMsg != interface{}(reply) || c.Value(k{}) != "v" ||
 				method != "/svc/u" || rq != interface{}(req) || rp != interface{}(reply) || len(o) != 1 {
+				ok = false
+			}
+			return want
+		}, opts...)
+		if err != want {
+			ok = false
+		}
+		// a call made with a context derived from another intercepted call (it already carries that call's messages)
+		other := &vMsg{Key: "other"}
+		ctx2 := context.WithValue(ctx, gcpKey, &gcpContext{reqMsg: other, replyMsg: other})
+		err = GCPUnaryClientInterceptor(ctx2, "/svc/u", req, reply, nil, func(c context.Context, method string, rq, rp interface{}, cc *grpc.ClientConn, o ...grpc.CallOption) error {
+			g, has := c.Value(gcpKey).(*gcpContext)
+			if !has || g.reqMsg != interface{}(req) || g.replyMsg != interface{}(reply) || c.Value(k{}) != "v" {
 				ok = false
 			}
 			return want
